@@ -191,10 +191,10 @@ class GdbSession:
     """The unmodified plugin (backends.gdb_plugin.plugin.Plugin + Controller + ConnectionManager) running on the shim,
     wired as main.main() wires it in GDB_PLUGIN mode.  Output goes through plugin.output_streams() -> gdb.write."""
 
-    def __init__(self, filter_text=None, stop_text=None, show_unprocessed=True, verbose=False):
+    def __init__(self, filter_text=None, stop_text=None, show_unprocessed=True, verbose=False, color=False):
         from . import env
         env.load_protocols()
-        env.reset_globals(False)
+        env.reset_globals(color)
         self.world = World()
         self.gdb = self.world.gdb
         self.gdb.reset()
